@@ -6,6 +6,7 @@ package main
 import (
 	"encoding/json"
 	"fmt"
+	"reflect"
 	"sort"
 	"strings"
 
@@ -89,7 +90,22 @@ func (m *refMap) UnmarshalJSON(b []byte) error {
 type mCall struct {
 	Ins     tensorMap `json:"ins"`
 	Reuse   refMap    `json:"reuse"`
+	Holds   tensorMap `json:"holds"` // contents of a reused input object when the call begins (refilled by the caller if they differ)
 	Allowed Allowed   `json:"allowed"`
+}
+
+// overwrite copies the values of want into the memory of t (same element type and size): the caller refills its buffer.
+func overwrite(t tensor.Tensor, want AbsTensor) error {
+	b, err := backing(want)
+	if err != nil {
+		return err
+	}
+	dst, src := reflect.ValueOf(t.Data()), reflect.ValueOf(b)
+	if dst.Kind() != reflect.Slice || src.Kind() != reflect.Slice || dst.Type() != src.Type() || dst.Len() != src.Len() {
+		return fmt.Errorf("refill: cannot write %s%v into a %T of %d elements", want.Dt, want.Shape, t.Data(), t.DataSize())
+	}
+	reflect.Copy(dst, src)
+	return nil
 }
 
 type mIntrospect struct {
@@ -355,6 +371,14 @@ func execModelCase(c *Case) []ModeResult {
 			if t == nil {
 				// the referenced call produced nothing (it failed): the spec's expectation for this call already accounts for that
 				continue
+			}
+			if want, ok := call.Holds[name]; ok {
+				// the caller has refilled this buffer since the call it is taken from: write the new contents into the SAME object
+				if same, _ := CompareTensor(want, t, "bits"); !same {
+					if err := overwrite(t, want); err != nil {
+						return []ModeResult{{"model", "infra:" + err.Error(), ""}}
+					}
+				}
 			}
 			feed[name] = t
 		}
